@@ -60,7 +60,12 @@ pub mod option_rangeproof_hex {
 		Option::<String>::deserialize(deserializer).and_then(|res| match res {
 			Some(string) => from_hex(&string)
 				.map_err(|err| Error::custom(err.to_string()))
-				.and_then(|val| Ok(Some(RangeProof::deserialize(val.into_deserializer())?))),
+				.and_then(|val| {
+					if val.len() > crate::grin_util::secp::constants::MAX_PROOF_SIZE {
+						return Err(Error::custom("range proof too long"));
+					}
+					Ok(Some(RangeProof::deserialize(val.into_deserializer())?))
+				}),
 			None => Ok(None),
 		})
 	}
@@ -271,9 +276,7 @@ pub mod option_dalek_pubkey_base64 {
 			Some(string) => base64::decode(&string)
 				.map_err(|err| Error::custom(err.to_string()))
 				.and_then(|bytes: Vec<u8>| {
-					let mut b = [0u8; 32];
-					b.copy_from_slice(&bytes[0..32]);
-					DalekPublicKey::from_bytes(&b)
+					DalekPublicKey::from_bytes(&bytes)
 						.map(Some)
 						.map_err(|err| Error::custom(err.to_string()))
 				}),
@@ -313,9 +316,7 @@ pub mod option_dalek_pubkey_serde {
 			Some(string) => from_hex(&string)
 				.map_err(|err| Error::custom(err.to_string()))
 				.and_then(|bytes: Vec<u8>| {
-					let mut b = [0u8; 32];
-					b.copy_from_slice(&bytes[0..32]);
-					DalekPublicKey::from_bytes(&b)
+					DalekPublicKey::from_bytes(&bytes)
 						.map(Some)
 						.map_err(|err| Error::custom(err.to_string()))
 				}),
@@ -386,9 +387,7 @@ pub mod dalek_sig_serde {
 		String::deserialize(deserializer)
 			.and_then(|string| from_hex(&string).map_err(|err| Error::custom(err.to_string())))
 			.and_then(|bytes: Vec<u8>| {
-				let mut b = [0u8; 64];
-				b.copy_from_slice(&bytes[0..64]);
-				DalekSignature::try_from(b).map_err(|err| Error::custom(err.to_string()))
+				DalekSignature::try_from(&bytes[..]).map_err(|err| Error::custom(err.to_string()))
 			})
 	}
 }
@@ -422,9 +421,7 @@ pub mod option_dalek_sig_serde {
 			Some(string) => from_hex(&string)
 				.map_err(|err| Error::custom(err.to_string()))
 				.and_then(|bytes: Vec<u8>| {
-					let mut b = [0u8; 64];
-					b.copy_from_slice(&bytes[0..64]);
-					DalekSignature::try_from(b)
+					DalekSignature::try_from(&bytes[..])
 						.map(Some)
 						.map_err(|err| Error::custom(err.to_string()))
 				}),
@@ -461,9 +458,7 @@ pub mod option_dalek_sig_base64 {
 			Some(string) => base64::decode(&string)
 				.map_err(|err| Error::custom(err.to_string()))
 				.and_then(|bytes: Vec<u8>| {
-					let mut b = [0u8; 64];
-					b.copy_from_slice(&bytes[0..64]);
-					DalekSignature::try_from(b)
+					DalekSignature::try_from(&bytes[..])
 						.map(Some)
 						.map_err(|err| Error::custom(err.to_string()))
 				}),
@@ -584,6 +579,9 @@ pub mod uuid_base64 {
 				base64::decode(&string).map_err(|err| Error::custom(err.to_string()))
 			})
 			.and_then(|bytes: Vec<u8>| {
+				if bytes.len() != 16 {
+					return Err(Error::custom("invalid uuid length"));
+				}
 				let mut b = [0u8; 16];
 				b.copy_from_slice(&bytes[0..16]);
 				Ok(Uuid::from_bytes(b))
